@@ -172,6 +172,55 @@ func Store(keyNames ...string) *dsig.MemoryX509CertificateStore {
 	return s
 }
 
+// CertEndingIn mints (memoised) a certificate for the named key, valid in the key's default
+// window, whose DER encoding ends in the given octet (the last octet of the signature): serial
+// numbers are tried in turn until one fits.
+func CertEndingIn(keyName string, last byte) *x509.Certificate {
+	id := fmt.Sprintf("%s/ends-in/%02x", keyName, last)
+	k := Key(keyName)
+	keyMu.Lock()
+	defer keyMu.Unlock()
+	if c, ok := certs[id]; ok {
+		return c
+	}
+	nb, na := Window(keyName)
+	var pub interface{}
+	switch kk := k.(type) {
+	case *rsa.PrivateKey:
+		pub = &kk.PublicKey
+	case *ecdsa.PrivateKey:
+		pub = &kk.PublicKey
+	}
+	for serial := int64(1000); serial < 20000; serial++ {
+		tmpl := &x509.Certificate{
+			SerialNumber:          big.NewInt(serial),
+			Subject:               pkix.Name{CommonName: subjectOf(keyName), Organization: []string{"verif"}},
+			NotBefore:             T0.Add(nb),
+			NotAfter:              T0.Add(na),
+			KeyUsage:              x509.KeyUsageDigitalSignature | x509.KeyUsageKeyEncipherment,
+			BasicConstraintsValid: true,
+		}
+		der, err := x509.CreateCertificate(constReader{}, tmpl, tmpl, pub, k)
+		if err != nil {
+			panic(err)
+		}
+		if der[len(der)-1] == last {
+			c, err := x509.ParseCertificate(der)
+			if err != nil {
+				panic(err)
+			}
+			certs[id] = c
+			return c
+		}
+	}
+	panic("no certificate ending in that octet found")
+}
+
+// CertSlice is a certificate store that is a plain slice.
+type CertSlice []*x509.Certificate
+
+func (c CertSlice) Certificates() ([]*x509.Certificate, error) { return c, nil }
+
 // Clock is a fake clock frozen at t.
 func Clock(t time.Time) *dsig.Clock { return dsig.NewFakeClockAt(t) }
 
@@ -250,6 +299,9 @@ type SPConf struct {
 	PlainStores bool `json:"plain_key_stores,omitempty"`
 	// NilStore: IDPCertificateStore is left nil (no certificate store at all)
 	NilStore bool `json:"nil_store,omitempty"`
+	// SliceStore: IDPCertificateStore is a certificate store of the deployment's own type, a
+	// named slice (anything with a Certificates method is allowed; a slice is not comparable)
+	SliceStore bool `json:"slice_store,omitempty"`
 }
 
 // Live mode: while it is on, Build hands out ONE long-lived instance per key configuration
@@ -319,6 +371,9 @@ func (c SPConf) Build() *saml2.SAMLServiceProvider {
 func (c SPConf) build() *saml2.SAMLServiceProvider {
 	sp := SP()
 	sp.IDPCertificateStore = Store(c.Store...)
+	if c.SliceStore {
+		sp.IDPCertificateStore = CertSlice(Store(c.Store...).Roots)
+	}
 	if c.NilStore {
 		sp.IDPCertificateStore = nil
 	}
